@@ -88,7 +88,7 @@ pub fn setup_udp_session(
     let socket = udp_socket(local, Some(remote), transparent)?;
     let socket = Arc::new(socket);
     Ok((
-        UdpFrameReader::new(target, socket.clone(), extra_frame),
+        UdpFrameReader::new(target, socket.clone(), remote, extra_frame),
         UdpFrameWriter::new(socket),
     ))
 }
@@ -96,14 +96,21 @@ pub fn setup_udp_session(
 struct UdpFrameReader {
     socket: Arc<UdpSocket>,
     target: TargetAddress,
+    remote: SocketAddr,
     extra_frame: Receiver,
 }
 
 impl UdpFrameReader {
-    fn new(target: TargetAddress, socket: Arc<UdpSocket>, extra_frame: Receiver) -> Box<Self> {
+    fn new(
+        target: TargetAddress,
+        socket: Arc<UdpSocket>,
+        remote: SocketAddr,
+        extra_frame: Receiver,
+    ) -> Box<Self> {
         Self {
             target,
             socket,
+            remote,
             extra_frame,
         }
         .into()
@@ -113,14 +120,25 @@ impl UdpFrameReader {
 #[async_trait]
 impl FrameReader for UdpFrameReader {
     async fn read(&mut self) -> IoResult<Option<Frame>> {
-        let mut buf = Frame::new();
-        tokio::select! {
-            Some(f) = self.extra_frame.recv() => Ok(Some(f)),
-            ret = buf.recv_from(&self.socket) => {
-                // e.g. ECONNREFUSED after an ICMP error: that is not a datagram from the client
-                ret?;
-                buf.addr = Some(self.target.clone());
-                Ok(Some(buf))
+        loop {
+            let mut buf = Frame::new();
+            tokio::select! {
+                Some(f) = self.extra_frame.recv() => return Ok(Some(f)),
+                ret = buf.recv_from(&self.socket) => {
+                    // e.g. ECONNREFUSED after an ICMP error: that is not a datagram from the client
+                    let (_, from) = ret?;
+                    // The socket is bound to the listener's address a moment before it is connected to
+                    // this session's client: datagrams of other clients that arrive in between sit in
+                    // its queue. They are not part of this session.
+                    if !self.remote.ip().is_unspecified()
+                        && crate::common::try_map_v4_addr(from) != crate::common::try_map_v4_addr(self.remote)
+                    {
+                        tracing::debug!("datagram from {} in the session of {}: dropped", from, self.remote);
+                        continue;
+                    }
+                    buf.addr = Some(self.target.clone());
+                    return Ok(Some(buf));
+                }
             }
         }
     }
